@@ -486,6 +486,62 @@ def decenc_free(cls: str, L: int, twin: bool = False, real: bool = False):
     return check_decenc_free, None
 
 
+def from_store(twin: bool = False, real: bool = False):
+    """d (store): a block written to the block store and read back carries, for the block and for every transaction, an
+    id equal to the hash of what the object re-encodes to, and re-encodes to the bytes that were written. Symbolic: the
+    reward input's reference index (blocks stored during bulk download are not validated), value, data, a spend's index."""
+    import harness.c08_store as c08
+    env, bs, su, gen = c08._env(real)
+
+    def check_from_store(idx: int, v: int, sidx: int, data: int) -> bool:
+        """
+        post: _
+        """
+        if not (0 <= idx <= 3 and 1 <= v <= 2 * 10 ** 9 and 0 <= sidx <= 2 and 0 <= data <= 255):
+            return True
+        if not real:
+            from symlib.stubs.oracles import LRO, install_hashes
+            install_hashes(LRO(0x07), None, None)
+        dt, sg = env.dt, env.sg
+        g = dt.Block.deserialize(gen.genesis_block_data)
+        K = sg.SECP256k1PublicKey(bytes([0xC1]) * 64)
+        cb = dt.Transaction([dt.Input(dt.OutputReference(b"\x00" * 32, idx), sg.CoinbaseData(1, bytes([data])))], [dt.Output(v, K)])
+        sp = dt.Transaction([dt.Input(dt.OutputReference(g.transactions[0].hash(), sidx), sg.SECP256k1Signature(bytes([0x55]) * 64))],
+                            [dt.Output(7, K)])
+        from symlib.world import tok, BLK
+        blk = env.block(1, g.hash(), [cb, sp], tok(BLK, 40), ts=g.timestamp + 10, target=g.target, merkle=bytes([0x3E, 1]) * 16)
+        hsha = bs.sha256d
+        store, handle = c08._new_store(env, bs, real)
+        try:
+            store.add_block_to_buffer(blk)
+            try:
+                store.flush_blocks_to_disk()
+            except Exception:
+                return True      # a reference the schema refuses (spend of a non-existing output): nothing was stored
+            got = [b for b in store.read_blocks_from_disk() if b.hash() == blk.hash()]
+            if twin:
+                return False
+            if len(got) != 1:
+                return False
+            rb = got[0]
+            if rb.serialize() != blk.serialize():
+                return False
+            for t0, t1 in zip(blk.transactions, rb.transactions):
+                if t1.serialize() != t0.serialize() or t1.hash() != hsha(t1.serialize()) or t1.hash() != t0.hash():
+                    return False
+            return len(rb.transactions) == 2
+        finally:
+            if real:
+                try:
+                    store.close()
+                except Exception:
+                    pass
+                import shutil
+                shutil.rmtree(handle, ignore_errors=True)
+
+    return check_from_store, {"idx": 0, "v": 5, "sidx": 0, "data": 1}
+
+
 def _template(shape: str, dt, sg, ms) -> Tuple[bytes, Any]:
     """A concrete valid encoding of the shape (distinct recognisable field contents)."""
     B = _mk_builders(dt, sg, ms)
@@ -624,6 +680,7 @@ def obligations(tier: str, known: List[str]) -> List[Ob]:
             obs.append(Ob("e.enc-dec[%s,w=%d]" % (shape, w), C_E, "encdec", {"shape": shape, "wire": True, "w": w},
                           timeout=300 if not thorough else 900))
     obs.append(twin_of(obs[-1]))
+    obs.append(Ob("d.id-of-objects-read-from-the-store", C_D, "from_store", {}, timeout=600))
     # c. fully symbolic small strings
     for cls, (q, t) in FREE.items():
         for L in (q + t if thorough else q):
